@@ -223,11 +223,13 @@ def write_channel(spec):
             else:
                 arr = t.astype(spec["dtype"])
             w.rf_write(arr, off - first)
-        before = set(glob.glob(os.path.join(chdir, "*", "rf@*.h5")))
+        w.close()
         if spec.get("leftover") and di == len(spec["dirs"]) - 1:
             # what a recorder killed between closing a file and renaming it leaves behind: a complete HDF5 file
-            # under a tmp. name after everything recorded.  It is produced by the writer itself (one more write
-            # into a later file period, closed, then renamed back to its tmp. name); readers ignore it
+            # under a tmp. name after everything recorded.  It is produced by the writer itself (a further session
+            # writing three samples into a later file period, closed; its file is then renamed back to its tmp.
+            # name); readers ignore it
+            before = set(glob.glob(os.path.join(chdir, "*", "rf@*.h5")))
             off, ln = segs[-1]
             per_file = -(-spec["n"] * spec["fc"] // (1000 * spec["d"]))
             cnt = 3 * spec["nsub"]
@@ -242,12 +244,17 @@ def write_channel(spec):
             else:
                 arr = t.astype(spec["dtype"])
             try:
-                w.rf_write(arr, off + ln + 2 * per_file + 1 - first)
+                w2 = digital_rf.DigitalRFWriter(chdir, np.dtype(spec["dtype"]), spec["sc"], spec["fc"],
+                                                spec["k0"] + off + ln + 2 * per_file + 1, spec["n"], spec["d"], uuid_str="left",
+                                                compression_level=spec.get("comp", 0), checksum=bool(spec.get("cksum", False)),
+                                                is_complex=spec["cplx"], num_subchannels=spec["nsub"],
+                                                is_continuous=spec["cont"], marching_periods=False)
+                w2.rf_write(arr)
+                w2.close()
             except Exception:  # noqa
                 pass
-        w.close()
-        for f in sorted(set(glob.glob(os.path.join(chdir, "*", "rf@*.h5"))) - before):
-            os.rename(f, os.path.join(os.path.dirname(f), "tmp." + os.path.basename(f)))
+            for f in sorted(set(glob.glob(os.path.join(chdir, "*", "rf@*.h5"))) - before):
+                os.rename(f, os.path.join(os.path.dirname(f), "tmp." + os.path.basename(f)))
     return [tops[i] for i in spec["order"]]
 
 
@@ -592,7 +599,7 @@ def oracle(res, spec, impl, queries, kinds, dirs, splits):
                         exp = np.promote_types("c8" if (raw.dtype.names or raw.dtype.kind == "c") else "f4", base)
                         okv = okv and z.dtype == exp
                         zc = impl.r.read_vector_c81d(s, L, CHAN, max(j, 0))
-                        okv = okv and zc.dtype == np.dtype("c8") and zc.ndim == 1 and np.array_equal(zc, np.asarray(z1).astype("c8"))
+                        okv = okv and zc.dtype == np.dtype("c8") and zc.ndim == 1 and np.array_equal(zc, np.asarray(z1).astype("c8"), equal_nan=True)
                     except Exception as ex:  # noqa
                         okv, z = False, repr(ex)
                     if not okv:
